@@ -99,4 +99,20 @@ func init() {
 		g.p("/-- the calls made inside the closure `onDisconnect` hands to `tasks.Range` -/")
 		g.p("def onDisconnectNotifies : List String := %s", leanStrList(inner))
 	}
+	props["C15"] = func(g *gen) {
+		// the handshake handlers that send a request to the pool: the handler for the answer is registered and the request is
+		// written — in which order (calls on the destination connection only, source order, function literals not entered)
+		const fFirst = "internal/resources/hashrate/proxy/handler_first_connect.go"
+		for _, h := range []string{"onMiningConfigure", "onMiningSubscribe", "onMiningAuthorize"} {
+			fd := g.methodDecl(fFirst, "HandlerFirstConnect", h)
+			var calls []string
+			for _, c := range callNames(fd.Body.List, 2) {
+				if c == "dest.onceResult" || c == "dest.Write" {
+					calls = append(calls, c)
+				}
+			}
+			g.p("/-- `HandlerFirstConnect.%s`: registering the answer's handler and writing the request, in source order -/", h)
+			g.p("def %sCalls : List String := %s", h, leanStrList(calls))
+		}
+	}
 }
